@@ -173,7 +173,7 @@ def _axes(toks, sizes, single, args, label, deferred):
     return ""
 
 
-def match(toks, shape, single, variadic, args=None, label=None, lenient=False):
+def match(toks, shape, single, variadic, args=None, label=None, lenient=False, partial=None):
     """Sequential semantics. Returns (verdict, why, single', variadic').
     verdict in ok|no|annot|open. On anything but ok the returned bindings are the input
     bindings (a failed or raising check binds nothing).
@@ -186,6 +186,8 @@ def match(toks, shape, single, variadic, args=None, label=None, lenient=False):
     s1, v1 = dict(single), dict(variadic)
     shape = tuple(shape)
     deferred = [] if lenient else None
+    if partial is not None:
+        partial.append((s1, v1))  # the working copies: what was tentatively bound on failure
 
     def finish():
         if deferred:
